@@ -122,6 +122,70 @@ class AnnealTap:
         DynamicalAnnealer.setup_annealing = self.o_setup
 
 
+def sweep_uses_reported_betas(ch, betas_before):
+    """The sweep just made by parallel-tempered chain `ch`: its recorded acceptance ratios against min(1, (L_a/L_b)^(beta_k - beta_j)) at
+    the ladder the chain reported when the sweep was made (`betas_before`: an annealer moves the ladder after the sweep), with the
+    occupants' log-likelihoods reconstructed from the records after the sweep and the recorded permutation."""
+    import math
+    n = len(ch.chains)
+    idx = [int(x) for x in numpy.atleast_2d(ch.temperature_swaps)[:, -1]]
+    ars = [float(x) for x in numpy.atleast_2d(ch.temperature_acceptance)[:, -1]]
+    newl = [float(c.current_stats['logl']) for c in ch.chains]
+    old = [None] * n
+    for t in range(n):
+        old[idx[t]] = newl[t]
+    occ = list(range(n))
+    for tk in range(n - 1, 0, -1):
+        tj = tk - 1
+        logar = (betas_before[tk] - betas_before[tj]) * (old[occ[tj]] - old[occ[tk]])
+        want = 1.0 if logar > 0 else math.exp(logar)
+        if abs(ars[tj] - want) > 1e-9 * max(1.0, want):
+            return ('the exchange of levels %d and %d was accepted with probability %r; at the betas the chain reports (%r, %r) it is %r'
+                    % (tj, tk, ars[tj], betas_before[tj], betas_before[tk], want))
+        if idx[tk] == occ[tj]:
+            occ[tj], occ[tk] = occ[tk], occ[tj]
+    return None
+
+
+def foreign_state_runs(rng, out, n):
+    """A sampler with a FIXED ladder that has already made sweeps is given the state of a sampler with another ladder (a fixed one, or
+    one an annealer has moved): from then on its levels sample at, its sweeps use and it reports the loaded ladder."""
+    import pickle
+    for i in range(n):
+        nt, nch, si = rng.choice([3, 4]), rng.choice([1, 2]), rng.choice([1, 2])
+        l1 = [1.0] + sorted([round(rng.uniform(0.1, 0.9), 3) for _ in range(nt - 2)], reverse=True) + [0.02]
+        l2 = [1.0] + sorted([round(rng.uniform(0.1, 0.9), 3) for _ in range(nt - 2)], reverse=True) + [0.02]
+        model = GaussModel(['x', 'y'], sigma=1.0, log=False)
+        donor_annealed = i % 2 == 1
+        ann = DynamicalAnnealer(tau=20, nu=1, Tmax_prior=False) if donor_annealed else None
+        donor = ParallelTemperedSampler(['x', 'y'], model, nch, betas=numpy.array(l2), swap_interval=si, adaptive_annealer=ann, seed=rng.randrange(1, 10 ** 6))
+        donor.start_position = {'x': numpy.full((nt, nch), 0.3), 'y': numpy.full((nt, nch), 0.1)}
+        donor.run(2 * si + 2)
+        s = ParallelTemperedSampler(['x', 'y'], model, nch, betas=numpy.array(l1), swap_interval=si, seed=rng.randrange(1, 10 ** 6))
+        s.start_position = {'x': numpy.full((nt, nch), 0.1), 'y': numpy.full((nt, nch), -0.2)}
+        s.run(2 * si)                                # it has made sweeps with its own ladder
+        s.set_state(pickle.loads(pickle.dumps(donor.state)))
+        loaded = [[float(b) for b in ch.betas] for ch in donor.chains]
+        desc = dict(kind='foreign_state', own_ladder=l1, donor_ladder=l2, donor_annealed=donor_annealed, swap_interval=si, nchains=nch)
+        for it in range(3 * si):
+            before = [[float(b) for b in ch.betas] for ch in s.chains]
+            s.run(1)
+            out.evaluations += 1
+            for ci, ch in enumerate(s.chains):
+                lv = [float(c.beta) for c in ch.chains]
+                lad = [float(b) for b in ch.betas]
+                bad = None
+                if lad != loaded[ci] or lv != lad:
+                    bad = 'after loading a state with ladder %s the levels sample at %s and the chain reports %s' % (loaded[ci], lv, lad)
+                elif ch.iteration % si == 0:
+                    bad = sweep_uses_reported_betas(ch, before[ci])
+                if bad:
+                    out.violations.append(dict(what='chain %d, iteration %d after the load: %s' % (ci, it + 1, bad), replay=desc))
+                    return
+        out.count('foreign_state_runs')
+        out.nontrivial.add(repr(('foreign', i, l1, l2)))
+
+
 def annealed_runs(rng, out, terms, meta, nruns, thorough):
     for _ in range(nruns):
         nt = rng.choice([3, 3, 4, 5, 6])
@@ -223,6 +287,8 @@ def run(seed, tier):
     setter_cases(rng, out, terms, meta, 600 if thorough else 80)
     geom_cases(rng, out, terms, meta, 120 if thorough else 20)
     annealed_runs(rng, out, terms, meta, 150 if thorough else 18, thorough)
+    if len(out.violations) <= 4:
+        foreign_state_runs(rng, out, 24 if thorough else 6)
     failing = core.run_coq_cases('C17', HEADER, terms, per_file=600)
     for f in failing[:10]:
         out.corr_failures.append(dict(note='ladder model and implementation disagree', case=meta[f[0]]))
